@@ -34,6 +34,8 @@ def spec_words(spec: dict) -> str:
             w.append(f"cond:{n['m']}:{n['r']}:{'z' if n['mode'] == 'zero' else 'd'}:{_ports(n['ins'])}/{_ports(n['outs'])}")
         elif k == "exec":
             w.append(f"exec:{n.get('k', 0)}:{_ports(n['ins'])}/{_ports(n['outs'])}")
+        elif k == "loop":
+            w.append(f"tf:loop:{n['k']}:{_ports(n['ins'])}/{_ports(n['outs'])}")
         elif k == "scatter":
             w.append(f"scatter:{n['ins'][0]}:{n['outs'][0]}:{n['outs'][1]}")
         elif k == "gather":
@@ -120,7 +122,7 @@ def real_prov(spec: dict, res: dict) -> dict:
     """provenance of a real run in terms of (spec port index, tag); generic table checks"""
     pid2idx = {pid: int(i) for i, pid in res["port_ids"].items() if pid is not None}
     tok = {t[0]: t for t in res["db"]["tokens"]}          # id -> [id, port_id, tag, type]
-    exec_outs = {n["outs"][0] for n in spec["nodes"] if n["kind"] == "exec"}
+    exec_outs = {n["outs"][0] for n in spec["nodes"] if n["kind"] in ("exec", "loop")}
     problems, edges, skipped = [], set(), 0
     for a, b in res["db"]["provenance"]:
         if a not in tok or b not in tok:
@@ -168,8 +170,19 @@ def render_edges(edges) -> str:
     return ",".join(sorted(edges)) or "-"
 
 
+def opaque_out_ports(spec: dict) -> set[int]:
+    """output ports of nodes whose internal ports are not part of the spec (job pipelines, loop sub-networks)"""
+    return {n["outs"][0] for n in spec["nodes"] if n["kind"] in ("exec", "loop")}
+
+
+def drop_opaque(spec: dict, edges) -> set[str]:
+    bad = opaque_out_ports(spec)
+    return {e for e in edges if int(e.split(">")[1].split(":")[0]) not in bad}
+
+
 # ---- running -------------------------------------------------------------------------------------
-def run_schedules(spec: dict, seeds: list[int], scratch: str, timeout: float = 30.0, plain_first: bool = True) -> list[dict]:
+def run_schedules(spec: dict, seeds: list[int], scratch: str, timeout: float = 30.0, plain_first: bool = True,
+                  confirm_hangs: bool = True) -> list[dict]:
     """the spec under each PRNG schedule (plus, first, the default asyncio order)"""
     out = []
     plan = ([(0, False)] if plain_first else []) + [(s, True) for s in seeds]
@@ -177,6 +190,14 @@ def run_schedules(spec: dict, seeds: list[int], scratch: str, timeout: float = 3
         wd = tempfile.mkdtemp(prefix="wf-", dir=scratch)
         try:
             res = wfgen.run_spec(spec, seed=seed, workdir=wd, timeout=timeout, shuffle=shuffle)
+            if res["outcome"]["kind"] == "hang" and confirm_hangs:
+                # a genuine deadlock reproduces under the same schedule; a slow machine does not: run again, 3x the time
+                shutil.rmtree(wd, ignore_errors=True)
+                os.makedirs(wd, exist_ok=True)
+                res2 = wfgen.run_spec(spec, seed=seed, workdir=wd, timeout=timeout * 3, shuffle=shuffle)
+                if res2["outcome"]["kind"] != "hang":
+                    res2["retried_after_timeout"] = True
+                res = res2
         finally:
             shutil.rmtree(wd, ignore_errors=True)
         res["shuffle"] = shuffle
